@@ -16,7 +16,7 @@ REPO = os.environ.get("NEOLITH_REPO", "/repo")
 CACHE = os.environ.get("NLX_CACHE", os.path.join(VERIF, ".cache"))
 BUILD = os.path.join(CACHE, "build")
 FACTS = os.path.join(CACHE, "facts")
-NLX = os.path.join(CACHE, "bin", "nlx")
+NLX = os.environ.get("NLX_BIN") or os.path.join(CACHE, "bin", "nlx")
 GUARD = "TAEDLAR_NEOLITH_VERIF"
 
 EXCLUDE_UNITS = ("edit_source.c", "make_func.c", "getopt.c")
